@@ -45,7 +45,7 @@ class WorldC07(World):
               'cti-executed', 'yaml-loaded', 'reactor-yaml', 'reactor-reused-dict', 'numpy-values', 'string-values-with-units',
               'units-omitted', 'text-path', 'file-path', 'overwrite', 'write-after-failed-write', 'recovery-after-fault',
               'clock-jump-before-write', 'default-units', 'bep-section-judged', 'same-size-other-elements-after-a-write',
-              'explicit-zero-barrier', 'non-ascii-name', 'write-with-partial-membership')
+              'explicit-zero-barrier', 'non-ascii-name', 'write-with-partial-membership', 'nasa9-ranges-judged')
     REAL = ('pmutt.io.omkm (write_cti, write_thermo_yaml, write_yaml, organize_phases)', 'pmutt.omkm.phase / pmutt.cantera.phase',
             'pmutt.omkm.reaction.SurfaceReaction / BEP', 'pmutt.mixture.cov.PiecewiseCovEffect', 'Nasa / Nasa9 / Shomate emitters',
             'pmutt.io.ctml_writer (the repo\'s CTI interpreter, used to execute written CTI text)', 'PyYAML')
@@ -122,6 +122,8 @@ class WorldC07(World):
                 sp.append({'name': nm, 'phase': s, 'elements': e, 'n_sites': rng.choice([1, 1, 2])})
         for d in sp:
             d['kind'] = rng.choice(sw['kinds'])
+            if d['kind'] == 'Nasa9' and rng.random() < 0.4:
+                d['n9_order'] = 'desc'
             d['scale'] = round(rng.uniform(0.8, 1.2), 4)
             d['shift'] = round(rng.uniform(-6000, 6000), 1)
         ts, beps, rxs = [], [], []
@@ -356,6 +358,8 @@ class WorldC07(World):
             return self.sho.Shomate(T_low=100.0, T_high=3500.0, a=np.array(a), units='J/mol/K', n_sites=d['n_sites'], **kw)
         segs = [self.nasa.SingleNasa9(T_low=100.0, T_high=1000.0, a=np.array([v * d['scale'] for v in N9_A])),
                 self.nasa.SingleNasa9(T_low=1000.0, T_high=3500.0, a=np.array([v * d['scale'] * 1.01 for v in N9_A]))]
+        if d.get('n9_order') == 'desc':
+            segs.reverse()                 # intervals listed hot to cold: legal, the object evaluates them by range
         return self.nasa.Nasa9(nasas=segs, n_sites=d['n_sites'] or 1, **kw)
 
     def _build(self, md):
@@ -720,6 +724,20 @@ class WorldC07(World):
                             what, d['name'], seg, list(co)))
                 if len(data) != 2:
                     raise Violation('species-say-what-the-objects-say', '%s: %s has %d coefficient sets' % (what, d['name'], len(data)))
+            elif d['kind'] == 'Nasa9':
+                self.ctx.probe('nasa9-ranges-judged')
+                rng_ = [float(x) for x in th.get('temperature-ranges', [])]
+                data = th.get('data') or []
+                if th.get('model') != 'NASA9' or rng_ != sorted(rng_) or len(data) != len(rng_) - 1:
+                    raise Violation('species-say-what-the-objects-say', '%s: %s NASA9 header %r ranges %r, %d coefficient sets' % (
+                        what, d['name'], th.get('model'), rng_, len(data)))
+                segs = {(float(n.T_low), float(n.T_high)): n for n in obj.nasas}
+                for (lo_, hi_), row in zip(zip(rng_, rng_[1:]), data):
+                    seg = segs.get((lo_, hi_))
+                    if seg is None or len(row) != 9 or any(not close(x, y, 1e-12) for x, y in zip(row, list(seg.a))):
+                        raise Violation('species-say-what-the-objects-say', '%s: %s range %r-%r carries %r, the object\'s interval '
+                                        'for that range has %r' % (what, d['name'], lo_, hi_, row,
+                                                                   list(seg.a) if seg is not None else None))
             elif d['kind'] == 'Shomate':
                 data = (th.get('data') or [[]])[0]
                 if th.get('model') != 'Shomate' or len(data) != 7 or any(not close(x, y, 1e-12) for x, y in zip(data, list(obj.a)[:7])):
@@ -962,6 +980,18 @@ class WorldC07(World):
                     if [float(x) for x in seg._t] != list(tr) or any(('%.8E' % x) != ('%.8E' % y) for x, y in zip(seg._coeffs, co)):
                         raise Violation('species-say-what-the-objects-say', '%s: %s NASA range %r coefficients %r, object %r' % (
                             what, d['name'], seg._t, seg._coeffs, list(co)))
+            elif d['kind'] == 'Nasa9':
+                th = s._thermo if isinstance(s._thermo, (list, tuple)) else [s._thermo]
+                segs = {(float(n.T_low), float(n.T_high)): n for n in obj.nasas}
+                if len(th) != len(segs):
+                    raise Violation('species-say-what-the-objects-say', '%s: %s has %d NASA9 ranges, the object %d' % (
+                        what, d['name'], len(th), len(segs)))
+                for seg in th:
+                    key = tuple(float(x) for x in seg._t)
+                    o_ = segs.get(key)
+                    if o_ is None or any(('%.8E' % x) != ('%.8E' % y) for x, y in zip(seg._coeffs, list(o_.a))):
+                        raise Violation('species-say-what-the-objects-say', '%s: %s NASA9 range %r coefficients %r, object %r' % (
+                            what, d['name'], seg._t, seg._coeffs, list(o_.a) if o_ is not None else None))
 
         def get(p, k):
             if k == 'name':
